@@ -53,8 +53,15 @@ class Generated:
         mods = {}
         if self.workdir not in sys.path:
             sys.path.insert(0, self.workdir)
+        # modules of the same name imported from another scratch directory must not be reused
+        for name, mod in list(sys.modules.items()):
+            f = getattr(mod, "__file__", None) or ""
+            if name.split(".")[0] in self._roots() and f and not f.startswith(self.workdir + os.sep):
+                del sys.modules[name]
         importlib.invalidate_caches()
         for name in self.module_names():
+            if name == "__init__":
+                continue  # a stray top-level __init__.py is not an importable module name
             mods[name] = importlib.import_module(name)
         return mods
 
@@ -73,15 +80,25 @@ class Generated:
         seen = set()
         for mod in self.import_all().values():
             for v in vars(mod).values():
-                if isinstance(v, type) and dataclasses.is_dataclass(v) and v.__module__.startswith(self.package.split(".")[0]) and v not in seen:
+                if isinstance(v, type) and dataclasses.is_dataclass(v) and v.__module__.split(".")[0] in self._roots() and v not in seen:
                     seen.add(v)
                     out.append(v)
         return out
 
+    def _roots(self) -> set:
+        roots = {self.package.split(".")[0]}
+        for rel in self.files:
+            roots.add(rel.split("/")[0].removesuffix(".py"))
+        return roots
+
     def cleanup(self):
-        root = self.package.split(".")[0]
-        for m in [m for m in sys.modules if m == root or m.startswith(root + ".")]:
-            del sys.modules[m]
+        roots = self._roots()
+        for name, mod in list(sys.modules.items()):
+            f = getattr(mod, "__file__", None) or ""
+            if name.split(".")[0] in roots and (f.startswith(self.workdir) or not f):
+                del sys.modules[name]
+            elif f.startswith(self.workdir + os.sep):
+                del sys.modules[name]
         while self.workdir in sys.path:
             sys.path.remove(self.workdir)
         importlib.invalidate_caches()
